@@ -493,6 +493,162 @@ static void lf_mutate(int kind, int mut, int seedno, vt_rng_t *rng, buf_t *res)
 	    }
 	}
 	break;
+    case M_YAMLALIAS:
+	{
+	    /* YAML anchors and aliases: cycles (alias to an enclosing node),
+	     * self reference, nested mutual references, shared subtrees,
+	     * undefined aliases, deep nesting */
+	    static const char *const snip[] = {
+		"cyc1: &c1 [*c1]", "cyc2: &c2 {k: *c2}",
+		"cyc3: &c3\n  - x\n  - - *c3", "cyc4: &c4\n  k:\n    j: [1, *c4]",
+		"mut1: &m1 [&m2 [*m1], *m2]", "self: &s *s", "und: *nope",
+		"dag1: &d1 [x, y]\ndag2: [*d1, *d1, {k: *d1}]",
+		"fan: &f1 [&f2 [&f3 [&f4 [a, a], *f4], *f3], *f2]",
+		"&k1 key: *k1", "? &k2 [a]\n: *k2", "*a", "&a", "&a [*a]",
+		"- &e1 [*e1]", "- &e2 {k: [*e2]}", "anc: &x1 {a: &x2 {b: *x1}}",
+	    };
+	    int r = vt_below(rng, 10);
+
+	    split_lines(b);
+	    if (r < 4) {
+		/* a snippet as a new line with the indentation of its
+		 * successor */
+		int at = nlines > 0 ? vt_below(rng, nlines + 1) : 0;
+		const char *w = snip[vt_below(rng,
+			(int)(sizeof(snip) / sizeof(*snip)))];
+
+		for (int i = 0; i <= nlines; ++i) {
+		    if (i == at) {
+			size_t sk = 0;
+
+			if (i < nlines) {
+			    const char *s = b->p + lines_[i].off;
+
+			    while (sk < lines_[i].len && s[sk] == ' ')
+				++sk;
+			}
+			/* indent every line of the snippet */
+			for (const char *p = w; *p != '\0'; ) {
+			    const char *e = strchr(p, '\n');
+			    size_t l = e != NULL ? (size_t)(e - p) : strlen(p);
+
+			    if (i < nlines)
+				out_add(&o, b->p + lines_[i].off, sk);
+			    out_add(&o, p, l);
+			    out_str(&o, "\n");
+			    p += l + (e != NULL);
+			}
+		    }
+		    if (i < nlines)
+			out_add(&o, b->p + lines_[i].off, lines_[i].len);
+		}
+	    } else if (r < 6) {
+		/* deep nesting */
+		int depth = r == 4 ? 200 + vt_below(rng, 1800) : 20000;
+
+		out_add(&o, b->p, b->n);
+		if (o.n > 0 && o.p[o.n - 1] != '\n')
+		    out_str(&o, "\n");
+		if (IS_YAMLTEXT(kind) || vt_below(rng, 2))
+		    o.n = 0;		/* the nest is the whole document */
+		if (kind == K_VNACAL && o.n == 0)
+		    out_str(&o, "#VNACal 1.0\nproperties: ");
+		else if (o.n > 0)
+		    out_str(&o, "deep: ");
+		for (int i = 0; i < depth; ++i)
+		    out_str(&o, vt_below(rng, 4) == 0 ? "{a: " : "[");
+		out_str(&o, "x\n");	/* brackets deliberately left open or */
+		if (vt_below(rng, 2) == 0) {	/* closed as sequences */
+		    o.n -= 2;
+		    o.p[o.n] = '\0';
+		    o.n = 0;
+		    if (kind == K_VNACAL)
+			out_str(&o, "#VNACal 1.0\nproperties: ");
+		    for (int i = 0; i < depth; ++i)
+			out_str(&o, "[");
+		    out_str(&o, "x");
+		    for (int i = 0; i < depth; ++i)
+			out_str(&o, "]");
+		    out_str(&o, "\n");
+		}
+	    } else {
+		/* anchor an existing block, alias it from inside (cycle) or
+		 * from a later place (shared subtree) */
+		int par[MAXLINES], np = 0, pi = -1, target = -1;
+		size_t pind = 0;
+
+		for (int i = 0; i + 1 < nlines; ++i) {
+		    const char *s = b->p + lines_[i].off;
+		    size_t n = lines_[i].len;
+
+		    while (n > 0 && isspace((unsigned char)s[n - 1]))
+			--n;
+		    if (n > 0 && s[n - 1] == ':')
+			par[np++] = i;
+		}
+		if (np > 0) {
+		    int inside = vt_below(rng, 3) != 0;
+		    int cand[MAXLINES], nc = 0;
+
+		    pi = par[vt_below(rng, np)];
+		    while (pind < lines_[pi].len &&
+			    b->p[lines_[pi].off + pind] == ' ')
+			++pind;
+		    for (int j = pi + 1; j < nlines; ++j) {
+			const char *s = b->p + lines_[j].off;
+			size_t ind = 0;
+
+			while (ind < lines_[j].len && s[ind] == ' ')
+			    ++ind;
+			if (inside && ind <= pind && s[ind] != '-')
+			    break;	/* left the block */
+			if (!inside && ind > pind)
+			    continue;	/* still inside */
+			if (memchr(s, ':', lines_[j].len) != NULL ||
+				memchr(s, '-', lines_[j].len) != NULL)
+			    cand[nc++] = j;
+		    }
+		    if (nc > 0)
+			target = cand[vt_below(rng, nc)];
+		}
+		for (int i = 0; i < nlines; ++i) {
+		    const char *s = b->p + lines_[i].off;
+		    size_t n = lines_[i].len;
+
+		    if (i == pi && target >= 0) {
+			size_t e = n;
+
+			while (e > 0 && isspace((unsigned char)s[e - 1]))
+			    --e;
+			out_add(&o, s, e);
+			out_str(&o, " &zz\n");
+		    } else if (i == target) {
+			const char *colon = NULL;
+			const char *dash = memchr(s, '-', n);
+
+			for (size_t j = 0; j < n; ++j) {
+			    if (s[j] == ':' && (j + 1 == n || s[j + 1] == ' ' ||
+					s[j + 1] == '\n')) {
+				colon = s + j;
+				break;
+			    }
+			}
+			if (colon != NULL) {
+			    out_add(&o, s, (size_t)(colon - s) + 1);
+			    out_str(&o, " *zz\n");
+			} else if (dash != NULL) {
+			    out_add(&o, s, (size_t)(dash - s) + 1);
+			    out_str(&o, " *zz\n");
+			} else {
+			    out_add(&o, s, n);
+			}
+		    } else {
+			out_add(&o, s, n);
+		    }
+		}
+	    }
+	}
+	break;
     case M_KWREPEAT:
 	{
 	    /* repeat a keyword / header line further down with its numeric
